@@ -87,7 +87,7 @@ func verifC12(tlsActive bool) {
 		hello = "LHLO"
 	}
 	// one probe per run
-	probe := verifChoice(12)
+	probe := verifChoice(15)
 	probes := []string{
 		"MAIL FROM:<a@v> SMTPUTF8", "MAIL FROM:<a@v> REQUIRETLS", "MAIL FROM:<a@v> BODY=BINARYMIME",
 		"MAIL FROM:<a@v> RET=FULL", "MAIL FROM:<a@v> ENVID=x", "MAIL FROM:<a@v> SIZE=10 BODY=8BITMIME",
@@ -95,6 +95,8 @@ func verifC12(tlsActive bool) {
 		"MAIL FROM:<a@v>\r\nRCPT TO:<b@v> RRVS=2014-04-03T23:01:00Z",
 		"MAIL FROM:<a@v>\r\nRCPT TO:<b@v> RRVS=2014-04-03T23:01:00Z;C",
 		"AUTH XVERIF =\r\nSTARTTLS", // an offered STARTTLS stays available after AUTH (whatever became of it)
+		// a gated parameter with an empty value, or without the value it needs: refused in any case
+		"MAIL FROM:<a@v> RET=", "MAIL FROM:<a@v> ENVID=", "MAIL FROM:<a@v> RET",
 	}
 	if nondetBool() {
 		// keywords and enumerated values are case-insensitive: the same probes
@@ -106,6 +108,7 @@ func verifC12(tlsActive bool) {
 			"MAIL FROM:<a@v>\r\nRCPT TO:<b@v> rrvs=2014-04-03T23:01:00Z",
 			"MAIL FROM:<a@v>\r\nRCPT TO:<b@v> rrvs=2014-04-03T23:01:00Z;c",
 			"auth XVERIF =\r\nstarttls",
+			"MAIL FROM:<a@v> ret=", "MAIL FROM:<a@v> envid=", "MAIL FROM:<a@v> ret",
 		}
 	}
 	in := hello + " c\r\n" + probes[probe] + "\r\n"
@@ -164,8 +167,12 @@ func verifC12(tlsActive bool) {
 		}
 		verifAssert(same, "C12.same-capabilities-after-failed-starttls")
 	}
-	enabled := []bool{cfg.utf8, cfg.reqtls, cfg.binmime, cfg.dsn, cfg.dsn, true, cfg.tls == 1, cfg.dsn, cfg.dsn, cfg.rrvs, cfg.rrvs, cfg.tls == 1}[probe]
-	if enabled {
+	enabled := []bool{cfg.utf8, cfg.reqtls, cfg.binmime, cfg.dsn, cfg.dsn, true, cfg.tls == 1, cfg.dsn, cfg.dsn, cfg.rrvs, cfg.rrvs, cfg.tls == 1, false, false, false}[probe]
+	if probe >= 12 {
+		// malformed use of a gated parameter: never accepted, enabled or not
+		verifReach("C12.probe-malformed")
+		verifAssert(last.code/100 == 5, "C12.malformed-gated-parameter-refused")
+	} else if enabled {
 		verifReach("C12.probe-enabled")
 		if probe == 6 || probe == 11 {
 			verifAssert(last.code == 220 || last.code == 550, "C12.advertised-starttls-accepted")
